@@ -1306,8 +1306,8 @@ theorem spec_sound (sq sqT : α → α) (hc : Spec.SqrtContract sq) (mag : α) (
   have hrng : Spec.statOk Spec.tol0 mag (fun l => Spec.listMax l - Spec.listMin l) c
       (trange true (fromNumpyCol sq c)) = true := by
     rw [trange_unscaled sq hc.nonneg, ← Spec.expectProp_ptp]; exact Spec.statOk0_prop mag _ c
-  have hmean : Spec.statOk Spec.tol0 mag meanL c (tmean true (fromNumpyCol sq c)) = true := by
-    rw [tmean_unscaled]; exact Spec.statOk0_nanmean mag c
+  have hmean : Spec.momentOk Spec.tol0 mag meanL c (tmean true (fromNumpyCol sq c)) = true := by
+    rw [tmean_unscaled]; exact Spec.momentOk0_nanmean mag c
   have hamax : Spec.argOk Spec.tol0 mag Spec.listMax c (some (targmax (fromNumpyCol sq c))) = true := by
     rw [targmax_eq_raw sq hc.nonneg]; exact Spec.argOk0_colArgmax mag c hne
   have hamin : Spec.argOk Spec.tol0 mag Spec.listMin c (some (targmin (fromNumpyCol sq c))) = true := by
@@ -1341,6 +1341,76 @@ theorem spec_stat_iff (mag : α) (f : List α → α) (truth : Col α) (obs : Op
   unfold Spec.statOk
   simp only [h, Bool.false_eq_true, if_false]
   exact closeO0_iff mag obs _
+
+/-- **the mean recomputed from the stored column** (`mat.mean(0) * scale + location`, the shape of `tmax`): for a
+    trait WITHOUT missing values it is the mean of the raw values, as `tmean(unscale=True)` is … -/
+theorem tmean_recomputed_complete (sq : α → α) (c : Col α) (hall : c.all Option.isSome = true) (hne : c ≠ []) :
+    tmeanRecomputed (fromNumpyCol sq c) = nanmean c := by
+  have hnan : Spec.hasNaN c = false := by rw [Spec.hasNaN_eq, hall]; rfl
+  have hc := Spec.eq_map_some_of_not_hasNaN hnan
+  have hp : present c ≠ [] := by
+    intro h; rw [h] at hc; exact hne hc
+  have hd : dense c = some (present c) := by unfold dense; simp [hall]
+  rw [fromNumpyCol_of_ne sq hp]
+  unfold tmeanRecomputed colMean
+  simp only
+  rw [dense_map _ _ (standardise_none _ _) (standardise_some _ _), hd]
+  cases hpc : present c with
+  | nil => exact absurd hpc hp
+  | cons a l =>
+    have hm := meanL_map_stdFn_self (l := a :: l) (by simp) (scaleOf sq (a :: l))
+    simp only [Option.map_some, List.map_cons] at hm ⊢
+    rw [hm]
+    simp [omul, oadd, lift2, nanmean, hpc]
+
+example : ([some (2 : Rat), some 9, some 4] : Col Rat).all Option.isSome = true ∧ ([some (2 : Rat), some 9, some 4] : Col Rat) ≠ [] := by
+  decide
+
+/-- … but for ANY object whose stored column holds a missing value it is NaN, whatever the other taxa hold -/
+theorem tmean_recomputed_nan (t : Trait α) (h : t.mat.all Option.isSome = false) : tmeanRecomputed t = none := by
+  unfold tmeanRecomputed colMean dense
+  simp [h, omul, oadd, lift2]
+
+/-- witness: three taxa, one without a record — the stored location (what `tmean(unscale=True)` returns) is the
+    mean 11/2 of the two observed values, the recomputed mean is NaN, and the Spec clause rejects it -/
+theorem tmean_recomputed_counterexample :
+    tmean true (fromNumpyCol (fun x => x) [some (2 : Rat), none, some 9]) = some (11 / 2) ∧
+    tmeanRecomputed (fromNumpyCol (fun x => x) [some (2 : Rat), none, some 9]) = none ∧
+    Spec.momentOk ({ rel := 1 / 1000, abs := 1 / 1000 } : Spec.Tol Rat) (10 : Rat) meanL
+      [some (2 : Rat), none, some 9] none = false := by
+  decide +kernel
+
+/-- **Spec ⇔ Prop, mean with missing values** (round 5).  The `stat:tmean` clause holds at zero tolerance
+    exactly when the observed statistic IS the mean of the OBSERVED raw values (`nanmean`, the quantity the
+    matrix is centred by; conclusion of `tmean_unscaled`) — for EVERY raw column, missing values included.
+    No NaN-propagating alternative is accepted for a moment. -/
+theorem spec_mean_iff (mag : α) (truth : Col α) (obs : Option α) :
+    Spec.momentOk Spec.tol0 mag meanL truth obs = true ↔ obs = nanmean truth := by
+  unfold Spec.momentOk
+  rw [Spec.expectIgn_meanL]
+  exact closeO0_iff mag obs _
+
+example : Spec.momentOk Spec.tol0 (1 : Rat) meanL [some 2, none, some 9, some 4] (some 5) = true := by decide +kernel
+
+/-- … so a mean reported as NaN for a trait that has an observed value (one missing taxon turning the whole
+    trait's mean into NaN: numpy `mean` in place of the stored `nanmean`) FAILS the clause, at any tolerance -/
+theorem spec_mean_rejects_nan (tol : Spec.Tol α) (mag : α) (truth : Col α) (h : present truth ≠ []) :
+    Spec.momentOk tol mag meanL truth none = false := by
+  unfold Spec.momentOk Spec.expectIgn
+  cases hp : present truth with
+  | nil => exact absurd hp h
+  | cons a l => rfl
+
+example : present [some (2 : Rat), none, some 9] ≠ [] := by decide
+
+/-- the same for the deviation and the variance: NaN is accepted only for a trait without any value -/
+theorem spec_std_var_nan_iff (sqT : α → α) (tol : Spec.Tol α) (mag : α) (truth : Col α) :
+    (Spec.stdOk sqT tol mag truth none = true ↔ present truth = []) ∧
+    (Spec.varOk sqT tol mag truth none = true ↔ present truth = []) := by
+  unfold Spec.stdOk Spec.varOk
+  cases present truth <;> simp
+
+example : Spec.stdOk (fun x => x) Spec.tol0 (1 : Rat) [some 2, none, some 2] none = false := by decide +kernel
 
 /-- the same for a trait of a matrix with 0 taxa (statistics not requested: numpy raises there) -/
 theorem spec_sound_no_taxa (sq sqT : α → α) (hc : Spec.SqrtContract sq) (mag : α) (c : Col α) :
